@@ -20,11 +20,11 @@ type vhC12Case struct{ k, n, mode, preset int }
 // the order harness: whole verdict deliveries and timer firings in every order
 func vhC12Cases(thorough bool) []vhC12Case {
 	var cs []vhC12Case
-	for _, kn := range [][2]int{{1, 1}, {2, 1}, {3, 1}, {1, 2}, {2, 2}} {
-		cs = append(cs, vhC12Case{kn[0], kn[1], 0, -1})
-		if kn != [2]int{2, 2} {
-			cs = append(cs, vhC12Case{kn[0], kn[1], 1, -1})
-		}
+	for _, kn := range [][2]int{{1, 1}, {2, 1}, {3, 1}, {1, 2}} {
+		cs = append(cs, vhC12Case{kn[0], kn[1], 0, -1}, vhC12Case{kn[0], kn[1], 1, -1})
+	}
+	for preset := 0; preset < 9; preset++ {
+		cs = append(cs, vhC12Case{2, 2, 0, preset})
 	}
 	if thorough {
 		for preset := 0; preset < 9; preset++ {
